@@ -3,7 +3,7 @@ neighbour sharing the edge; where strokes overlap the most recent one wins (open
 from numbers_parser.cell import RGB, Border
 from numbers_parser.model import _NumbersModel
 
-from pysym.api import BoolDom, Cases, Harness, IntDom, assume, concretize, cover
+from pysym.api import BoolDom, BVDom, Cases, Harness, IntDom, assume, concretize, cover
 from specs.common import StubModel, make_table
 
 OPP = {"top": "bottom", "bottom": "top", "left": "right", "right": "left"}
@@ -233,7 +233,7 @@ def h15d_layers(cfg, o1, l1, o2, l2, o3, l3):
 
 
 # ------------------------------------------------------------------------------------------------ Style objects
-from numbers_parser.cell import Alignment, Style  # noqa: E402
+from numbers_parser.cell import Alignment, HorizontalJustification, Style, TextCell, VerticalJustification  # noqa: E402
 
 TEXT_ATTRS = ["alignment", "bold", "first_indent", "font_color", "font_name", "font_size", "italic", "left_indent", "name",
               "right_indent", "strikethrough", "text_inset", "underline"]
@@ -320,6 +320,234 @@ def h15f_cell_style_archives(r1, g1, b, r2, g2, r3, wrap2, same_object, second_s
         m.update_cell_styles(7, [cells[:2], cells[2:]])
         for c in cells[:2]:
             assert m.archives[c._style._cell_style_obj_id] == cell_level(c._style)
+
+
+# ------------------------------------------------------------------------------------------------ style archives
+import struct as _struct  # noqa: E402
+
+from numbers_parser.constants import DOCUMENT_ID  # noqa: E402
+from numbers_parser.numbers_cache import Cacheable  # noqa: E402
+
+F32_FIELDS = {"r", "g", "b", "a", "font_size", "first_line_indent", "left_indent", "right_indent", "left", "top", "right", "bottom"}
+
+
+def f32(x):
+    """what a protobuf `float` field keeps of a Python float: the nearest binary32 value"""
+    return _struct.unpack("<f", _struct.pack("<f", x))[0]
+
+
+NEIGHBOUR = [False]          # set by H15g-f32 only: there the changed value is compared with the original and nothing else
+
+
+def m_f32(eng, x):
+    import z3
+    from pysym.values import SymFloat, Unsupported, is_sym
+    if not is_sym(x):
+        return f32(float(x))
+    if isinstance(x, SymFloat) and x.ival is not None and eng.must(eng.and_(eng.cmp("LtE", x.ival, 2 ** 24), eng.cmp("GtE", x.ival, -(2 ** 24)))):
+        return x                                            # integers up to 2^24 are binary32 values
+    if isinstance(x, SymFloat) and x.quot is not None:
+        a, k = x.quot
+        if isinstance(k, int) and k & (k - 1) == 0 and eng.must(eng.and_(eng.cmp("LtE", a, 2 ** 24), eng.cmp("GtE", a, -(2 ** 24)))):
+            return x                                        # a / 2^j with |a| <= 2^24: a binary32 value
+        if isinstance(k, int) and eng.must(eng.and_(eng.cmp("LtE", a, 255), eng.cmp("GtE", a, 0))):
+            # a colour component c / 255: one path per value, the real arithmetic decides
+            return f32(eng.concretize_int(a, "colour component") / k)
+        if isinstance(k, int) and k > 0 and eng.must(eng.and_(eng.cmp("LtE", a, 2 ** 24), eng.cmp("GtE", a, -(2 ** 24)))):
+            # a / (odd * 2^j): a binary32 value exactly when odd divides a (then it is (a / odd) / 2^j); otherwise the
+            # field keeps a neighbouring value, which is a different number
+            odd = k
+            while odd % 2 == 0:
+                odd //= 2
+            if eng.truth(eng.cmp("Eq", eng.op("Mod", a, odd), 0)):
+                return SymFloat(quot=(eng.op("FloorDiv", a, odd), k // odd))
+            if not NEIGHBOUR[0]:
+                raise Unsupported("binary32 rounding of a value binary32 cannot hold")
+            return -1.0          # stands for the binary32 neighbour: some float that is not the (positive) value stored
+    t = eng.to_fp(x if isinstance(x, SymFloat) else eng.as_float(x))
+    return SymFloat(z3.fpFPToFP(z3.RNE(), z3.fpFPToFP(z3.RNE(), t, z3.Float32()), z3.Float64()))
+
+
+class Msg:
+    """a protobuf message as the style code uses it: nested fields by attribute, HasField = explicitly set, float
+    fields keep binary32 values, unset sub-messages spring into existence when touched"""
+
+    def __init__(self, d=None):
+        object.__setattr__(self, "_set", {})
+        for k, v in (d or {}).items():
+            setattr(self, k, v)
+
+    def __setattr__(self, k, v):
+        if isinstance(v, dict):
+            v = Msg(v)
+        elif k in F32_FIELDS:
+            v = f32(v)
+        self._set[k] = v
+
+    def __getattr__(self, k):
+        if k.startswith("__"):
+            raise AttributeError(k)
+        st = object.__getattribute__(self, "_set")
+        if k in st:
+            return st[k]
+        sub = Msg()
+        object.__setattr__(self, "_auto_" + k, sub)
+        return self.__dict__["_auto_" + k]
+
+    def HasField(self, k):
+        return k in self._set
+
+    def MergeFrom(self, other):
+        self._set["identifier"] = other.identifier
+
+
+class StyleObjects:
+    def __init__(self):
+        self.store = {}
+        self.next = 900
+
+    def __getitem__(self, k):
+        return self.store[k]
+
+    def create_object_from_dict(self, iwa, d, cls):
+        self.next += 1
+        self.store[self.next] = Msg(d)
+        return self.next, self.store[self.next]
+
+
+class StyleTable:
+    """DataLists side: a table's style keys -> references"""
+
+    def __init__(self):
+        self.refs = {}
+
+    def lookup_value(self, table_id, key):
+        return Rec(reference=Rec(identifier=self.refs[key]))
+
+
+class StyleModel(Cacheable):
+    """self for the real style writers and readers of _NumbersModel"""
+    add_paragraph_style = _NumbersModel.add_paragraph_style
+    update_paragraph_style = _NumbersModel.update_paragraph_style
+    update_paragraph_styles = _NumbersModel.update_paragraph_styles
+    add_cell_style = _NumbersModel.add_cell_style
+    update_cell_styles = _NumbersModel.update_cell_styles
+    table_style = _NumbersModel.table_style
+    text_style_object_id = _NumbersModel.text_style_object_id
+    cell_style_object_id = _NumbersModel.cell_style_object_id
+    cell_text_style = _NumbersModel.cell_text_style
+    cell_alignment = _NumbersModel.cell_alignment
+    cell_bg_color = _NumbersModel.cell_bg_color
+    char_property = _NumbersModel.char_property
+    para_property = _NumbersModel.para_property
+    cell_property = _NumbersModel.cell_property
+    cell_is_bold = _NumbersModel.cell_is_bold
+    cell_is_italic = _NumbersModel.cell_is_italic
+    cell_is_underline = _NumbersModel.cell_is_underline
+    cell_is_strikethrough = _NumbersModel.cell_is_strikethrough
+    cell_style_name = _NumbersModel.cell_style_name
+    cell_font_color = _NumbersModel.cell_font_color
+    cell_font_size = _NumbersModel.cell_font_size
+    cell_font_name = _NumbersModel.cell_font_name
+    cell_first_indent = _NumbersModel.cell_first_indent
+    cell_left_indent = _NumbersModel.cell_left_indent
+    cell_right_indent = _NumbersModel.cell_right_indent
+    cell_text_inset = _NumbersModel.cell_text_inset
+    cell_text_wrap = _NumbersModel.cell_text_wrap
+
+    def __init__(self):
+        self.objects = StyleObjects()
+        self.objects.store[DOCUMENT_ID] = Rec(stylesheet=Rec(identifier=5), theme=Rec(identifier=6))
+        self.objects.store[5] = Rec(styles=[], identifier_to_style_map=[])
+        self.objects.store[6] = Rec(super=Rec(presets=[]))
+        self._table_styles = StyleTable()
+        self._styles = {}
+
+    @property
+    def styles(self):
+        return self._styles
+
+
+G_STUBS = ["protobuf messages = attribute bags with HasField; `float` fields keep the nearest binary32 value (model m_f32: exact "
+           "for integers and dyadic fractions up to 2^24, colour components c / 255 one path per value)",
+           "object store create_object_from_dict builds the bag from the dict; stylesheet / theme lists are plain lists; "
+           "find_extension returns the theme's preset list"]
+G_OUT = ["values a binary32 field cannot hold (known finding KF-C15-float32)", "background images, font families other than one "
+         "fixed family", "parent-style inheritance of unset fields", "the protobuf bytes"]
+
+
+def fake_find_extension(obj, name):
+    return obj.presets
+
+
+def h15g_archives(fr, fg, fb, br, bg, bb, has_bg, size4, i1, i2, i3, inset, bold, italic, under, strike, wrap, hal, val, resave, which=None):
+    """a style goes to the document through the real add_paragraph_style / add_cell_style (and update_paragraph_style
+    on a second save) and is read back through the real Style.from_storage and the model's cell_* accessors: every
+    attribute comes back equal - for values a binary32 field can hold"""
+    if which == "font":
+        br = 77
+    elif which == "background":
+        fr = 200
+    for v in (fr, fg, fb, br, bg, bb):
+        assume(0 <= v <= 255)
+    assume(4 <= size4 <= 4000 and 0 <= i1 <= 4000 and 0 <= i2 <= 4000 and 0 <= i3 <= 4000 and 0 <= inset <= 4000)
+    assume(0 <= hal <= 4 and 0 <= val <= 2)
+    st = Style(name="My Style", font_name="Menlo", font_color=RGB(fr, fg, fb), bg_color=RGB(br, bg, bb) if has_bg else None,
+               font_size=size4 / 4, first_indent=i1 / 8, left_indent=i2 / 8, right_indent=i3 / 8, text_inset=inset / 8,
+               bold=bold, italic=italic, underline=under, strikethrough=strike, text_wrap=wrap,
+               alignment=Alignment(HorizontalJustification(hal), VerticalJustification(val)))
+    m = StyleModel()
+    m._styles[st.name] = st
+    m.update_paragraph_styles()                                  # first save: archives created
+    cell = TextCell.__new__(TextCell)                            # a real cell: the accessors test isinstance(obj, Cell)
+    cell._style = st
+    cell._table_id = 7
+    cell._model = m
+    cell._text_style_id = None
+    cell._cell_style_id = None
+    cell.row = 3
+    cell.col = 3
+    m.update_cell_styles(7, [[cell]])
+    if resave:
+        # an attribute of each archive changed between two saves of the open document
+        st.bold = not bold
+        st.text_wrap = not wrap
+        m.update_paragraph_styles()
+        m.update_cell_styles(7, [[cell]])
+    # what save records in the cell: keys of the two style references
+    m._table_styles.refs = {1: st._text_style_obj_id, 2: st._cell_style_obj_id}
+    cell._text_style_id = 1
+    cell._cell_style_id = 2
+    back = Style.from_storage(cell, m)
+    for a in PUBLIC:
+        assert back.__dict__[a] == st.__dict__[a]
+    assert back._text_style_obj_id == st._text_style_obj_id and back._cell_style_obj_id == st._cell_style_obj_id
+
+
+def h15g_f32(n, attr):
+    """sizes given in tenths: what comes back after save and reopen is what was given"""
+    assume(10 <= n <= 5000)
+    NEIGHBOUR[0] = True
+    x = n / 10
+    kw = {attr: x}
+    st = Style(name="My Style", font_name="Menlo", **kw)
+    m = StyleModel()
+    m._styles[st.name] = st
+    m.update_paragraph_styles()
+    cell = TextCell.__new__(TextCell)
+    cell._style = st
+    cell._table_id = 7
+    cell._model = m
+    cell._text_style_id = None
+    cell._cell_style_id = None
+    cell.row = 3
+    cell.col = 3
+    m.update_cell_styles(7, [[cell]])
+    m._table_styles.refs = {1: st._text_style_obj_id, 2: st._cell_style_obj_id}
+    cell._text_style_id = 1
+    cell._cell_style_id = 2
+    back = Style.from_storage(cell, m)
+    assert back.__dict__[attr] == x
 
 
 class StyleSource:
@@ -442,6 +670,28 @@ HARNESSES += [
             stubs=["add_cell_style replaced by a recorder of the cell-level attributes it was handed (archive construction is protobuf)",
                    "cells = attribute bags with _style / style"],
             outside=["background images", "alignment / indents / inset varied (kept at defaults)", "blue components that differ"]),
+    Harness("H15g", h15g_archives,
+            dict(fr=Cases([200]), fg=Cases([255]), fb=Cases([128]), br=Cases([77]), bg=Cases([7]), bb=Cases([200]), has_bg=Cases([False, True]),
+                 size4=IntDom(), i1=IntDom(), i2=IntDom(), i3=IntDom(), inset=IntDom(), bold=BoolDom(), italic=BoolDom(),
+                 under=BoolDom(), strike=BoolDom(), wrap=BoolDom(), hal=Cases([0, 1, 2, 3, 4]), val=Cases([0, 1, 2]), resave=Cases([False, True])),
+            bounds="font size any multiple of 1/4 up to 1000, indents and inset any multiple of 1/8 up to 500 (all symbolic and "
+                   "independent), the five flags, every horizontal x vertical alignment, with / without background colour, one save "
+                   "or two saves with a flag of each archive flipped in between; colours fixed (H15g-colour)",
+            stubs=G_STUBS, outside=G_OUT, models={f32: m_f32}, patches=[(modelmod, "find_extension", fake_find_extension)]),
+    Harness("H15g-f32", h15g_f32,
+            lambda tier: dict(n=IntDom(), attr=Cases(["font_size", "text_inset"] if tier == "quick" else
+                                                      ["font_size", "first_indent", "left_indent", "right_indent", "text_inset"])),
+            bounds="point-valued attributes (quick: font_size and text_inset, one per archive; thorough: all five) set to n / 10 "
+                   "for every n in 10..5000 (symbolic)",
+            stubs=G_STUBS, outside=G_OUT[1:], models={f32: m_f32}, patches=[(modelmod, "find_extension", fake_find_extension)]),
+    Harness("H15g-colour", h15g_archives,
+            dict(fr=IntDom(), fg=Cases([255]), fb=Cases([128]), br=IntDom(), bg=Cases([7]), bb=Cases([200]), has_bg=Cases([True]),
+                 size4=Cases([44]), i1=Cases([0]), i2=Cases([8]), i3=Cases([16]), inset=Cases([32]), bold=Cases([True]), italic=Cases([False]),
+                 under=Cases([False]), strike=Cases([True]), wrap=Cases([True]), hal=Cases([1]), val=Cases([2]), resave=Cases([False]),
+                 which=Cases(["font", "background"])),
+            bounds="the red component of the font colour (or of the background colour) takes every value 0..255 - c / 255 stored in a "
+                   "binary32 field, read back as round(x * 255) - everything else fixed",
+            stubs=G_STUBS, outside=G_OUT, models={f32: m_f32}, patches=[(modelmod, "find_extension", fake_find_extension)]),
     Harness("H15e-from_storage", h15e_from_storage,
             dict(bold=BoolDom(), italic=BoolDom(), strike=BoolDom(), under=BoolDom(), wrap=BoolDom(), size=IntDom(), i1=IntDom(0, 99),
                  i2=IntDom(0, 99), i3=IntDom(0, 99), inset=IntDom(0, 99), tid=IntDom(1, 2 ** 20), cid=IntDom(1, 2 ** 20)),
